@@ -90,7 +90,7 @@ func selftestDeterminism(args []string) {
 		}
 	}
 	if bad > 0 {
-		os.Exit(2)
+		exit(2)
 	}
 }
 
@@ -136,7 +136,7 @@ func selftestFidelity() {
 	fmt.Print(res)
 	if err != nil {
 		fmt.Println("selftest-fidelity: FAILED:", err)
-		os.Exit(2)
+		exit(2)
 	}
 	fmt.Println("selftest-fidelity: the repository's tests pass on the instrumented copy (simulator inactive)")
 }
